@@ -19,7 +19,51 @@ use std::panic::{catch_unwind, AssertUnwindSafe};
 pub const E_NONE: Int = -1;
 pub const E_PANIC: Int = -5;
 pub const TIMEOUT: Int = -999997;
+/// a panic or a hang INSIDE the third-party `probability` crate (e.g. `Binomial::inverse` for
+/// quantiles next to 1: `self.n - k + 1` underflows; debug: panic, release: endless loop).  Such a
+/// case says nothing about constriction and is dropped by the Python side.
+pub const FOREIGN: Int = -999995;
 const WATCHDOG_SECS: u64 = 6;
+
+// id of the case whose worker thread is currently inside the foreign crate (0 = none); a worker
+// abandoned by the watchdog keeps spinning but never stores again
+static IN_FOREIGN: std::sync::atomic::AtomicU64 = std::sync::atomic::AtomicU64::new(0);
+static FOREIGN_PANICKED: std::sync::atomic::AtomicU64 = std::sync::atomic::AtomicU64::new(0);
+static NEXT_CASE: std::sync::atomic::AtomicU64 = std::sync::atomic::AtomicU64::new(1);
+thread_local! { static MY_CASE: Cell<u64> = Cell::new(0); }
+
+struct ForeignGuard;
+impl Drop for ForeignGuard {
+    fn drop(&mut self) {
+        use std::sync::atomic::Ordering::SeqCst;
+        if std::thread::panicking() {
+            FOREIGN_PANICKED.store(MY_CASE.with(|c| c.get()), SeqCst);
+        }
+        IN_FOREIGN.store(0, SeqCst);
+    }
+}
+
+fn foreign<T>(f: impl FnOnce() -> T) -> T {
+    IN_FOREIGN.store(MY_CASE.with(|c| c.get()), std::sync::atomic::Ordering::SeqCst);
+    let _g = ForeignGuard;
+    f()
+}
+
+/// `probability::distribution::Binomial` with the calls into the foreign crate marked
+pub struct GuardedBinomial(Binomial);
+
+impl Distribution for GuardedBinomial {
+    type Value = usize;
+    fn distribution(&self, x: f64) -> f64 {
+        foreign(|| self.0.distribution(x))
+    }
+}
+
+impl Inverse for GuardedBinomial {
+    fn inverse(&self, p: f64) -> usize {
+        foreign(|| self.0.inverse(p))
+    }
+}
 
 /// CDF given by a table (indexed by the boundary `x = s - 0.5`, `s = lo+1 ..= hi`); the
 /// inverse returns whatever hint the case prescribes for the current query.
@@ -63,9 +107,9 @@ impl Distribution for AnyDist {
     fn distribution(&self, x: f64) -> f64 {
         match self {
             AnyDist::Step(s) => s.eval(x),
-            AnyDist::Gauss(d) => d.distribution(x),
-            AnyDist::Cauchy(d) => d.distribution(x),
-            AnyDist::Laplace(d) => d.distribution(x),
+            AnyDist::Gauss(d) => foreign(|| d.distribution(x)),
+            AnyDist::Cauchy(d) => foreign(|| d.distribution(x)),
+            AnyDist::Laplace(d) => foreign(|| d.distribution(x)),
         }
     }
 }
@@ -79,9 +123,9 @@ impl Inverse for AnyDist {
                 }
                 s.hint.get()
             }
-            AnyDist::Gauss(d) => d.inverse(p),
-            AnyDist::Cauchy(d) => d.inverse(p),
-            AnyDist::Laplace(d) => d.inverse(p),
+            AnyDist::Gauss(d) => foreign(|| d.inverse(p)),
+            AnyDist::Cauchy(d) => foreign(|| d.inverse(p)),
+            AnyDist::Laplace(d) => foreign(|| d.inverse(p)),
         }
     }
 }
@@ -114,7 +158,7 @@ impl HintCtl for AnyDist {
     }
 }
 
-impl HintCtl for Binomial {}
+impl HintCtl for GuardedBinomial {}
 
 fn f(bits: Int) -> f64 {
     f64::from_bits(bits as u64)
@@ -332,7 +376,7 @@ macro_rules! leaky_impl {
                     1 => go::<_, $p>(AnyDist::Gauss(Gaussian::new(f(params[0]), f(params[1]))), lo, hi, dkind, ops, out),
                     2 => go::<_, $p>(AnyDist::Cauchy(Cauchy::new(f(params[0]), f(params[1]))), lo, hi, dkind, ops, out),
                     3 => go::<_, $p>(AnyDist::Laplace(Laplace::new(f(params[0]), f(params[1]))), lo, hi, dkind, ops, out),
-                    4 => go::<_, $p>(Binomial::new(params[0] as usize, f(params[1])), lo, hi, dkind, ops, out),
+                    4 => go::<_, $p>(GuardedBinomial(Binomial::new(params[0] as usize, f(params[1]))), lo, hi, dkind, ops, out),
                     other => panic!("harness: unknown distribution kind {}", other),
                 }, )*
                 other => panic!("harness: leaky precision {} not in menu", other),
@@ -395,17 +439,28 @@ pub fn run(r: &mut Reader, out: &mut Vec<Int>) {
     let v: Vec<Int> = r.v[r.i..].to_vec();
     r.i = r.v.len();
     let (tx, rx) = std::sync::mpsc::channel();
+    use std::sync::atomic::Ordering::SeqCst;
+    let case = NEXT_CASE.fetch_add(1, SeqCst);
     std::thread::Builder::new()
         .stack_size(16 << 20)
         .spawn(move || {
+            MY_CASE.with(|c| c.set(case));
             let mut o = Vec::new();
             run_inner(&v, &mut o);
             let _ = tx.send(o);
         })
         .unwrap();
     match rx.recv_timeout(std::time::Duration::from_secs(WATCHDOG_SECS)) {
-        Ok(o) => out.extend(o),
-        Err(std::sync::mpsc::RecvTimeoutError::Timeout) => out.push(TIMEOUT),
+        Ok(o) => {
+            if FOREIGN_PANICKED.load(SeqCst) == case {
+                out.push(FOREIGN)
+            } else {
+                out.extend(o)
+            }
+        }
+        Err(std::sync::mpsc::RecvTimeoutError::Timeout) => {
+            out.push(if IN_FOREIGN.load(SeqCst) == case { FOREIGN } else { TIMEOUT })
+        }
         Err(std::sync::mpsc::RecvTimeoutError::Disconnected) => panic!("leaky worker panicked"),
     }
 }
